@@ -402,6 +402,14 @@ func (s *c19Scn) waitSessionInit(filter *TrzszFilter) {
 	time.Sleep(time.Millisecond)
 }
 
+var c19VetoN int
+
+// c19VetoBehind alternates over the vetoed headers of a shard: behind the header, in front of it, ...
+func c19VetoBehind() bool {
+	c19VetoN++
+	return c19VetoN%2 == 1
+}
+
 func (s *c19Scn) feedSrv(kind, veto, start string, short bool) {
 	cancel := zmodemCancelFullSequence
 	if short {
@@ -427,11 +435,16 @@ func (s *c19Scn) feedSrv(kind, veto, start string, short bool) {
 	case "probe":
 		b = []byte("\r\nprobe " + tok)
 	}
-	switch veto {
-	case "can":
+	// the veto stands behind the header or (every other time) in front of it: "alongside", wherever in the read
+	switch {
+	case veto == "can" && c19VetoBehind():
 		b = append(b, cancel...)
-	case "cno":
+	case veto == "can":
+		b = append(append([]byte(nil), cancel...), b...)
+	case veto == "cno" && c19VetoBehind():
 		b = append(b, []byte("\r\nsz: cannot open /nonexistent: No such file or directory\r\n")...)
+	case veto == "cno":
+		b = append([]byte("sz: cannot open /nonexistent: No such file or directory\r\n"), b...)
 	}
 	s.emit(map[string]any{"e": "srv", "k": kind, "v": veto, "st": start, "id": id})
 	if !s.srvR.feed(b, c19PumpWait) {
